@@ -683,7 +683,25 @@ fn run_history(
             MemFault::DoubleFree => format!("C16|double-free|{}", fl),
             MemFault::UnknownFree => format!("C16|free-of-unknown-block|{}", fl),
         };
-        st.find("C16", sig, hist_s, format!("{:?} (teardown order {})", m, order));
+        st.find("C16", sig.clone(), hist_s, format!("{:?} (teardown order {})", m, order));
+        // undefined behaviour in a single-threaded history: whatever the calls
+        // return cannot be relied on, so the sequential-behaviour properties
+        // are violated as well (the quarantine only hides the consequences)
+        let via = sig.replacen("C16|", "", 1);
+        st.find(
+            "C09",
+            format!("C09|memory-fault-in-sequential-history|{}", via),
+            hist_s,
+            format!("{:?} (teardown order {})", m, order),
+        );
+        if c.qc.fut {
+            st.find(
+                "C15",
+                format!("C15|memory-fault-in-sequential-history|{}", via),
+                hist_s,
+                format!("{:?} (teardown order {})", m, order),
+            );
+        }
     }
     for p in &led.faults {
         let (prop, sig): (&'static str, String) = match p {
@@ -786,6 +804,19 @@ impl<'a> Dfs<'a> {
                         expect.push(ms.expect_notify.clone());
                     }
                     go_on = self.compare(ops, &out, &preds, &hs, accounted, &expect);
+                    if let Ok(pfx) = std::env::var("MQV_TRACE_NODE") {
+                        if hs.starts_with(&pfx) {
+                            eprintln!(
+                                "NODE {} [{}] accounted={} go_on={} evs={:?} preds={:?}",
+                                hs,
+                                self.fl,
+                                accounted,
+                                go_on,
+                                out.evs.iter().map(|e| e.res.clone()).collect::<Vec<_>>(),
+                                preds
+                            );
+                        }
+                    }
                 }
             }
             ms.next_val = 1 + ops.iter().filter(|o| matches!(o.k, TrySend | StartSend)).count() as u32;
@@ -1175,17 +1206,18 @@ fn pump(st: &mut SeqStats, fl: Flavour, fut: bool, cap: u64, label: &str) {
 
 /// C17: churn histories: memory held by the queue must not grow with the
 /// number of add/remove cycles while a fixed set of handles keeps operating.
-fn churn(st: &mut SeqStats, fl: Flavour, fut: bool, cycles: usize, early_drop: bool, kind: usize, burst: usize) {
+fn churn(st: &mut SeqStats, fl: Flavour, fut: bool, cycles: usize, early_drop: bool, kind: usize, burst: usize, primed: bool) {
     let qc = if fut {
         crate::catalog::qf(fl, 2, (0, 0))
     } else {
         crate::catalog::q(fl, 2, WaitK::Busy)
     };
     let label = format!(
-        "{}{}{}|cycle={}|early-drop={}",
+        "{}{}{}{}|cycle={}|early-drop={}",
         if fl == Flavour::B { "bcast" } else { "mpmc" },
         if fut { "-fut" } else { "" },
         if burst > 1 { "|bursts" } else { "" },
+        if primed { "|cycle-in-flight-at-start" } else { "" },
         ["clone-recv", "add-stream", "clone-sender", "single-multi", "clone-sender-after-receivers-left"][kind],
         early_drop
     );
@@ -1197,13 +1229,41 @@ fn churn(st: &mut SeqStats, fl: Flavour, fut: bool, cycles: usize, early_drop: b
     rt::set_seq_horizon(50_000);
     let ctx = Ctx::new(qc);
     let _ = rt::seq_call(|| ctx.create());
+    // a call that panics or never returns ends the churn (reported below); an
+    // operation on a handle that such a call consumed is never attempted
+    let broken: std::cell::RefCell<Option<String>> = std::cell::RefCell::new(None);
     let run = |o: Op| {
-        let _ = rt::seq_call(|| ctx.exec(MAIN, &o));
+        if broken.borrow().is_some() {
+            return;
+        }
+        if !ctx.slot_live(o.h) {
+            *broken.borrow_mut() = Some(format!("handle {} is gone before {:?}", o.h, o.k));
+            return;
+        }
+        match rt::seq_call(|| ctx.exec(MAIN, &o)) {
+            Ok(true) => {}
+            Ok(false) => *broken.borrow_mut() = Some(format!("{:?} on handle {} panicked: {:?}", o.k, o.h, ctx.hist.lk().last().map(|e| e.res.clone()))),
+            Err(None) => *broken.borrow_mut() = Some(format!("{:?} on handle {} never returns on one thread", o.k, o.h)),
+            Err(Some(m)) => *broken.borrow_mut() = Some(format!("{:?} on handle {}: {}", o.k, o.h, m)),
+        }
     };
     if early_drop {
         // a non-last handle of the stream is dropped early
         run(opd(CloneH, 1, 5));
         run(op(DropH, 5));
+    }
+    if primed {
+        // 24 retirements without any fixed handle operating in between: a
+        // reclamation cycle is in flight (and unacknowledged) when the churn
+        // - or, for kind 4, the departure of the last stream - begins
+        for _ in 0..(if fl == Flavour::B { 6 } else { 24 }) {
+            if fl == Flavour::B {
+                run(opd(AddStream, 1, 4));
+            } else {
+                run(opd(CloneH, 1, 4));
+            }
+            run(op(DropH, 4));
+        }
     }
     if kind == 4 {
         // only senders stay alive and keep operating
@@ -1265,6 +1325,17 @@ fn churn(st: &mut SeqStats, fl: Flavour, fut: bool, cycles: usize, early_drop: b
             }
         }
         ctx.hist.lk().clear();
+        if let Some(b) = broken.borrow().clone() {
+            for prop in ["C09", "C12"] {
+                st.find(
+                    prop,
+                    format!("{}|churn-call-fails|{}", prop, label),
+                    &format!("churn kind={} cycles={} early_drop={} burst={}", kind, cycles, early_drop, burst),
+                    format!("in cycle {}: {}", i, b),
+                );
+            }
+            break;
+        }
         if std::env::var("MQV_DEBUG").is_ok() && i % 10 == 0 {
             let (blocks, bytes) = rt::crate_live();
             eprintln!("{} cycle {} live_bytes {} crate_blocks {} crate_bytes {}", label, i, valloc::live().0, blocks, bytes);
@@ -1277,8 +1348,21 @@ fn churn(st: &mut SeqStats, fl: Flavour, fut: bool, cycles: usize, early_drop: b
     st.histories += 1;
     st.calls += (cycles * 4) as u64;
     st.depth = st.depth.max(cycles * 4);
-    st.states.insert(cycles as u64 * 131 + burst as u64 * 1009 + kind as u64 * 7 + early_drop as u64 + if fut { 1000 } else { 0 } + if fl == Flavour::B { 50000 } else { 0 });
+    st.states.insert(cycles as u64 * 131 + burst as u64 * 1009 + kind as u64 * 7 + early_drop as u64 + primed as u64 * 77777 + if fut { 1000 } else { 0 } + if fl == Flavour::B { 50000 } else { 0 });
     // growth between the half-way mark and the end (after warm-up)
+    if plateau.len() < 4 {
+        // the churn was cut short (reported above)
+        let _ = rt::seq_call(|| {
+            for i in 0..NSLOTS as u8 {
+                if ctx.slot_live(i) {
+                    ctx.exec(MAIN, &op(DropH, i));
+                }
+            }
+        });
+        let _ = rt::seq_call(|| tracked(|| drop(ctx)));
+        let _ = rt::exec_end();
+        return;
+    }
     let a = plateau[1];
     let b = plateau[3];
     let per_cycle = (b.1 - a.1) as f64 / (b.0 - a.0) as f64;
@@ -1357,6 +1441,10 @@ fn crowd(st: &mut SeqStats, fl: Flavour, mode: usize, k: usize) {
     let mut calls = 0u64;
     let mut run = |o: Op| -> Option<Res> {
         calls += 1;
+        if !ctx.slot_live(o.h) {
+            // an earlier call that panicked consumed the handle
+            return Some(Res::Panic(format!("handle {} is gone", o.h)));
+        }
         match rt::seq_call(|| ctx.exec(MAIN, &o)) {
             Ok(true) => ctx.hist.lk().last().map(|e| e.res.clone()),
             _ => Some(Res::Blocked),
@@ -1823,7 +1911,7 @@ pub fn main(prop: &str, tier: Tier, si: usize, sk: usize) {
     let mut st = SeqStats::default();
     let thorough = tier == Tier::Thorough;
     let deadline = Instant::now() + Duration::from_secs(if thorough { 1800 } else { 40 });
-    if matches!(prop, "C05" | "C09" | "C13" | "C14" | "C15" | "C17") {
+    if matches!(prop, "C04" | "C05" | "C09" | "C13" | "C14" | "C15" | "C16" | "C17") {
         for c in configs(prop, tier) {
             st.configs.push(format!("{}:depth{}", c.qc.label(), c.depth));
             let fl = format!(
@@ -1888,21 +1976,22 @@ pub fn main(prop: &str, tier: Tier, si: usize, sk: usize) {
                             if kind == 4 && early {
                                 continue;
                             }
-                            jobs.push((fl, fut, cy, early, kind, 1usize));
+                            jobs.push((fl, fut, cy, early, kind, 1usize, false));
                             if !early {
-                                jobs.push((fl, fut, cy, early, kind, 16usize));
+                                jobs.push((fl, fut, cy, early, kind, 16usize, false));
+                                jobs.push((fl, fut, cy, early, kind, 1usize, true));
                             }
                         }
                     }
                 }
             }
         }
-        for (j, (fl, fut, cy, early, kind, burst)) in jobs.into_iter().enumerate() {
+        for (j, (fl, fut, cy, early, kind, burst, primed)) in jobs.into_iter().enumerate() {
             if j % sk != si {
                 continue;
             }
-            st.configs.push(format!("churn:{:?}:{}:{}:{}:{}:{}", fl, fut, cy, early, kind, burst));
-            churn(&mut st, fl, fut, cy, early, kind, burst);
+            st.configs.push(format!("churn:{:?}:{}:{}:{}:{}:{}:{}", fl, fut, cy, early, kind, burst, primed));
+            churn(&mut st, fl, fut, cy, early, kind, burst, primed);
         }
     }
     if matches!(prop, "C09" | "C03" | "C11" | "C01") {
@@ -2036,6 +2125,16 @@ pub fn replay(path: &str) {
                         fl: format!("{}{}", lbl, c.suffix),
                     };
                     d.compare(&ops, &out, &preds, &hist, true, &expect);
+                    if std::env::var("MQV_SHOW").is_ok() && order == 0 {
+                        println!("--- {} cap {}", lbl, cap);
+                        for e in &out.evs {
+                            println!("  {:?} h{} v{} -> {:?}", e.k, e.h, e.val, e.res);
+                        }
+                        println!("  model predicted: {:?}", preds);
+                        for (k, v) in &st.findings {
+                            println!("  FINDING {} :: {}", k, v.3);
+                        }
+                    }
                     if st.findings.keys().any(|k| *k == sig) {
                         println!("--- reproduced on {} cap {} teardown order {}", lbl, cap, order);
                         for e in &out.evs {
